@@ -43,14 +43,44 @@ def range_number_from_counter(e, label, counter):
     number = counter.get(key, None)
 
     if number is None:
-        number = 1 + sum(1 for o in counter.keys() if o[0] == label)
-        assert number is not None
+        # the smallest number that is not in use by another open range with
+        # this label (a count of the open ranges would collide with a range
+        # that is still open after a lower numbered one has been closed)
+        used = set(
+            n for k, n in counter.items() if isinstance(k, tuple) and k[0] == label
+        )
+        number = 1
+        while number in used:
+            number += 1
         counter[key] = number
 
     else:
         del counter[key]
 
     return number
+
+
+def numbered_ranges(ranges, label, counter, starting):
+    """
+    Numbers for the slurs or tuplets that start (or stop) at one note, as
+    (number, range) pairs sorted by number. The result must not depend on the
+    order in which the ranges were attached to the note (it differs between a
+    score and the same score loaded from MusicXML): among the stopping ranges
+    those whose start is still to come in the document take a number before
+    the others give theirs back, among the starting ranges those whose stop
+    has been written already give their number back first.
+    """
+
+    def is_open(o):
+        return (label, o) in counter
+
+    if starting:
+        ranges = sorted(ranges, key=lambda o: not is_open(o))
+    else:
+        ranges = sorted(ranges, key=is_open)
+
+    numbers = [(range_number_from_counter(o, label, counter), o) for o in ranges]
+    return sorted(numbers, key=itemgetter(0))
 
 
 def filter_string(s):
@@ -189,44 +219,20 @@ def make_note_el(note, dur, voice, counter, n_of_staves):
         if note.staff != 1 or n_of_staves > 1:
             etree.SubElement(note_e, "staff").text = "{}".format(note.staff)
 
-    for slur in note.slur_stops:
-        number = range_number_from_counter(slur, "slur", counter)
-
+    for number, slur in numbered_ranges(note.slur_stops, "slur", counter, False):
         notations.append(etree.Element("slur", number="{}".format(number), type="stop"))
 
-    for slur in note.slur_starts:
-        number = range_number_from_counter(slur, "slur", counter)
-
+    for number, slur in numbered_ranges(note.slur_starts, "slur", counter, True):
         notations.append(
             etree.Element("slur", number="{}".format(number), type="start")
         )
 
-    for tuplet in note.tuplet_stops:
-        tuplet_key = ("tuplet", tuplet)
-        number = counter.get(tuplet_key, None)
-
-        if number is None:
-            number = 1
-            counter[tuplet_key] = number
-
-        else:
-            del counter[tuplet_key]
-
+    for number, tuplet in numbered_ranges(note.tuplet_stops, "tuplet", counter, False):
         notations.append(
             etree.Element("tuplet", number="{}".format(number), type="stop")
         )
 
-    for tuplet in note.tuplet_starts:
-        tuplet_key = ("tuplet", tuplet)
-        number = counter.get(tuplet_key, None)
-
-        if number is None:
-            number = 1 + sum(1 for o in counter.keys() if o[0] == "tuplet")
-            counter[tuplet_key] = number
-
-        else:
-            del counter[tuplet_key]
-
+    for number, tuplet in numbered_ranges(note.tuplet_starts, "tuplet", counter, True):
         tuplet_e = etree.Element("tuplet", number="{}".format(number), type="start")
         if (
             tuplet.actual_notes is not None
